@@ -297,6 +297,12 @@ func VerifRun_C18d() {
 	if verifBool("suffix") || call == "dofile" { // a dofile argument always carries its suffix
 		mod += ".lua"
 	}
+	dotslash := call == "dofile" && verifBool("dotslash") // dofile("./x.lua"): the same file, written relative to the workspace
+	cursor := 1
+	if dotslash {
+		mod = "./" + mod
+		cursor = 3
+	}
 	main := []byte("local r = " + call + "(\"" + mod + "\")\nq = r\n")
 	srcs[0] = main
 	l := CreateLspServer()
@@ -321,6 +327,10 @@ func VerifRun_C18d() {
 	if specfile && n == fn {
 		dclass = "C18-dotted-file-name"
 	}
+	if dclass == "" && dotslash {
+		// known defect: the analysis resolves dofile("./x.lua"), the requests on the string do not
+		dclass = "C18-dofile-dot-slash"
+	}
 	if others == 0 && n6 == 0 {
 		// no file of the workspace is called <n>.lua or <n>/init.lua (at most <fn>.spec.lua exists)
 		verifViolation(dclass, "no file-not-found diagnostic although no file with the module's name exists")
@@ -330,7 +340,7 @@ func VerifRun_C18d() {
 	}
 	pos := lsp.TextDocumentPositionParams{
 		TextDocument: lsp.TextDocumentIdentifier{URI: lsp.DocumentURI("file://" + files[0])},
-		Position:     lsp.Position{Line: 0, Character: uint32(len("local r = "+call+"(\"") + 1)}}
+		Position:     lsp.Position{Line: 0, Character: uint32(len("local r = "+call+"(\"") + cursor)}}
 	locs, _ := l.TextDocumentDefine(context.Background(), pos)
 	ends := func(s, suf string) bool { return len(s) >= len(suf) && s[len(s)-len(suf):] == suf }
 	if loaded == "" && len(locs) > 0 {
